@@ -221,8 +221,15 @@ func (p *parser) ident() string {
 
 func (p *parser) typeName() string {
 	s := ""
-	for p.accept("*") {
-		s += "*"
+	for {
+		if p.accept("*") {
+			s += "*"
+		} else if p.isOp("[") && p.ts[p.pos+1].k == "op" && p.ts[p.pos+1].s == "]" {
+			p.pos += 2
+			s += "[]"
+		} else {
+			break
+		}
 	}
 	s += p.ident()
 	for p.accept(".") {
@@ -514,8 +521,9 @@ func ParseSpecFile(path, pkgPath string) (*SpecFile, error) {
 func ParseSpecText(text, path, pkgPath string) (*SpecFile, error) {
 	sf := &SpecFile{Pkg: pkgPath, Pures: map[string]*PureDef{}}
 	type rawLine struct {
-		s    string
-		line int
+		s      string
+		line   int
+		indent bool // written as "//@   clause": belongs to the enclosing loop / rely block
 	}
 	var lines []rawLine
 	for i, l := range strings.Split(text, "\n") {
@@ -534,7 +542,7 @@ func ParseSpecText(text, path, pkgPath string) (*SpecFile, error) {
 			after = tb[len(w) : len(w)+1]
 		}
 		if keywords[w] && (after == "" || after == " " || after == "." || after == "[") || len(lines) == 0 {
-			lines = append(lines, rawLine{stripComment(tb), i + 1})
+			lines = append(lines, rawLine{stripComment(tb), i + 1, strings.HasPrefix(body, "  ")})
 		} else {
 			lines[len(lines)-1].s += " " + stripComment(tb)
 		}
@@ -545,6 +553,13 @@ func ParseSpecText(text, path, pkgPath string) (*SpecFile, error) {
 	for _, rl := range lines {
 		s := stripComment(rl.s)
 		w := firstWord(s)
+		if !rl.indent && w != "unroll" {
+			// a clause at function level ends any loop / rely block
+			if w != "loop" && w != "rely" {
+				curLoop = nil
+				curRely = nil
+			}
+		}
 		rest := strings.TrimSpace(strings.TrimPrefix(s, w))
 		errf := func(f string, a ...interface{}) error {
 			return fmt.Errorf("%s:%d: %s", path, rl.line, fmt.Sprintf(f, a...))
@@ -799,8 +814,14 @@ func collectCallKeys(e Expr, out map[string]bool) {
 	case *EQuant:
 		collectCallKeys(x.Body, out)
 	case *ECall:
-		if (x.Fn == "calls" || x.Fn == "ts" || x.Fn == "dcalls" || x.Fn == "darg" || x.Fn == "dret" || x.Fn == "arg" || x.Fn == "argat" || x.Fn == "ncalls" || x.Fn == "ret" || x.Fn == "retat") && len(x.Args) > 0 {
+		if (x.Fn == "calls" || x.Fn == "ts" || x.Fn == "tsat" || x.Fn == "dcalls" || x.Fn == "darg" || x.Fn == "dret" || x.Fn == "arg" || x.Fn == "argat" || x.Fn == "ncalls" || x.Fn == "ret" || x.Fn == "retat") && len(x.Args) > 0 {
 			out[exprKey(x.Args[0])] = true
+		}
+		if x.Fn == "countat" && len(x.Args) == 3 {
+			// countat(K2, K1, i): how many calls of K2 had been logged when the i-th (absolute) call of K1 was made
+			out[exprKey(x.Args[0])] = true
+			out[exprKey(x.Args[1])] = true
+			out["countat:"+exprKey(x.Args[1])+":"+exprKey(x.Args[0])] = true
 		}
 		if x.Fn == "lastcall" && len(x.Args) == 3 {
 			out[exprKey(x.Args[0])] = true
